@@ -743,6 +743,34 @@ def rule_r11(repo, run):
               % sorted(used), mm.loc(ci))
 
 
+def rule_r12(repo, run):
+    R = run.rule("C15.R12", "wrap flags are a function of the options: wherever the options of a cloned declaration are updated "
+                            "(`X.options.update(...)`), the wrap flags of X are computed again from them")
+    gm = repo.module("generate")
+    n = 0
+    for q, fn in sorted(gm.functions().items()):
+        for c in ast.walk(fn):
+            if not (isinstance(c, ast.Call) and isinstance(c.func, ast.Attribute) and c.func.attr == "update"
+                    and isinstance(c.func.value, ast.Attribute) and c.func.value.attr == "options"
+                    and isinstance(c.func.value.value, ast.Name)):
+                continue
+            obj = c.func.value.value.id
+            # only clones: the object was made by .clone() in this function
+            cloned = any(isinstance(a, ast.Assign) and pyflow.is_name(a.targets[0], obj) and isinstance(a.value, ast.Call)
+                         and (pyflow.call_name(a.value) or "").endswith(".clone") for a in ast.walk(fn))
+            if not cloned:
+                continue
+            n += 1
+            redo = [a for a in ast.walk(fn) if isinstance(a, ast.Assign) and isinstance(a.targets[0], ast.Attribute)
+                    and a.targets[0].attr == "wrap" and pyflow.is_name(a.targets[0].value, obj)
+                    and "WrapFlags" in ast.unparse(a.value) and a.lineno > c.lineno]
+            run.check(R, "generate.%s:%s.wrap-after-options" % (q, obj), bool(redo),
+                      "`%s` changes the options of the clone `%s` and its wrap flags stay as clone() computed them from the "
+                      "original's options: `wrap_python: false` (or true) given for this instantiation is ignored"
+                      % (" ".join(ast.unparse(c).split())[:50], obj), gm.loc(c))
+    run.floor(R, "option updates of clones", n, 2)
+
+
 def run(repo, run, tier):
     P = Program(repo)
     rule_r1(repo, run)
@@ -756,5 +784,6 @@ def run(repo, run, tier):
     rule_r9(repo, run)
     rule_r10(repo, run)
     rule_r11(repo, run)
+    rule_r12(repo, run)
     run.assumptions.append("the property's domain requests Fortran only together with C, so a test of the "
                            "Fortran flag is accepted as guard for switching the C flag on")
